@@ -1658,6 +1658,27 @@ where
 
         let packet_id_opt = packet.packet_id();
         let ta_opt = Self::get_topic_alias_from_props(packet.props());
+
+        // Check receive_maximum for sending (QoS 1 and 2 packets) before the topic alias
+        // table is touched: a refused packet must not register an alias the peer never sees
+        if packet.qos() == Qos::AtLeastOnce || packet.qos() == Qos::ExactlyOnce {
+            if let Some(max) = self.publish_send_max {
+                if self.publish_send_count >= max {
+                    events.push(GenericEvent::NotifyError(MqttError::ReceiveMaximumExceeded));
+                    if let Some(packet_id) = packet_id_opt {
+                        if self.pid_man.is_used_id(packet_id) {
+                            self.pid_man.release_id(packet_id);
+                            self.store.erase_publish(packet_id);
+                            self.pid_puback.remove(&packet_id);
+                            self.pid_pubrec.remove(&packet_id);
+                            events.push(GenericEvent::NotifyPacketIdReleased(packet_id));
+                        }
+                    }
+                    return events;
+                }
+            }
+        }
+
         if packet.topic_name().is_empty() {
             // process manually provided TopicAlias
             if !topic_alias_validated && self.validate_topic_alias(ta_opt).is_none() {
@@ -1728,24 +1749,11 @@ where
             }
         }
 
-        // Check receive_maximum for sending (QoS 1 and 2 packets)
-        if packet.qos() == Qos::AtLeastOnce || packet.qos() == Qos::ExactlyOnce {
-            if let Some(max) = self.publish_send_max {
-                if self.publish_send_count >= max {
-                    events.push(GenericEvent::NotifyError(MqttError::ReceiveMaximumExceeded));
-                    if let Some(packet_id) = packet_id_opt {
-                        if self.pid_man.is_used_id(packet_id) {
-                            self.pid_man.release_id(packet_id);
-                            self.store.erase_publish(packet_id);
-                            self.pid_puback.remove(&packet_id);
-                            self.pid_pubrec.remove(&packet_id);
-                            events.push(GenericEvent::NotifyPacketIdReleased(packet_id));
-                        }
-                    }
-                    return events;
-                }
-                self.publish_send_count += 1;
-            }
+        // Count the exchange against the peer's Receive Maximum
+        if (packet.qos() == Qos::AtLeastOnce || packet.qos() == Qos::ExactlyOnce)
+            && self.publish_send_max.is_some()
+        {
+            self.publish_send_count += 1;
         }
 
         if self.status == ConnectionStatus::Connected {
